@@ -11,3 +11,5 @@ import Modbus.Props.C18
 #print axioms Modbus.C18.coil_value
 #print axioms Modbus.C18.bool_to_coil
 #print axioms Modbus.C18.coil_roundtrip
+#print axioms Modbus.C18.fc_first_byte_coverage
+#print axioms Modbus.C18.unimplemented_kinds_have_code_but_no_encoding
